@@ -124,6 +124,111 @@ pub fn big_zone_recs(scale: usize) -> Vec<Rec> {
     v
 }
 
+/// `wide.`: delegations, MX RRsets and SRV RRsets of every size 1..=20 and
+/// 40 whose targets are in-bailiwick and have addresses. Address octets are
+/// >= 0xc2 on purpose: any name walk that strays from a label into RDATA
+/// meets octets that look like compression pointers.
+pub fn wide_zone_recs() -> Vec<Rec> {
+    let apex = wname("wide.");
+    let mut v = vec![
+        rec(&apex, t::SOA, 3600, soa_rdata("ns.wide.", "admin.wide.", 1, 1, 2, 3, 60)),
+        rec(&apex, t::NS, 3600, wname("ns.wide.")),
+        rec(&wname("ns.wide."), t::A, 60, vec![203, 0, 113, 250]),
+    ];
+    for n in wide_sizes() {
+        for i in 0..n {
+            let ns = wname(&format!("ns{i:02}.d{n:02}.wide."));
+            v.push(rec(&wname(&format!("d{n:02}.wide.")), t::NS, 60, ns.clone()));
+            v.push(rec(&ns, t::A, 60, vec![203, 0, 113, 194 + (i % 60) as u8]));
+            if i % 3 == 0 {
+                v.push(rec(&ns, t::AAAA, 60, vec![0xfd; 16]));
+            }
+            let mx = format!("mx{i:02}.m{n:02}.wide.");
+            v.push(rec(&wname(&format!("m{n:02}.wide.")), t::MX, 60, mx_rdata(0xc2c2, &mx)));
+            v.push(rec(&wname(&mx), t::A, 60, vec![198, 51, 100, 200 + (i % 50) as u8]));
+            let sv = format!("sv{i:02}.s{n:02}.wide.");
+            v.push(rec(&wname(&format!("s{n:02}.wide.")), t::SRV, 60, srv_rdata(0xc3c3, 0xc4c4, 0xc5c5, &sv)));
+            v.push(rec(&wname(&sv), t::A, 60, vec![198, 51, 100, 210 + (i % 40) as u8]));
+        }
+    }
+    v
+}
+
+pub fn wide_sizes() -> Vec<usize> {
+    let mut v: Vec<usize> = (1..=20).collect();
+    v.push(40);
+    v
+}
+
+/// The names queried in `wide.`: every cut, a name below it, one of its
+/// servers, every MX / SRV owner.
+pub fn wide_names() -> Vec<Vec<u8>> {
+    let mut v = vec![wname("wide.")];
+    for n in wide_sizes() {
+        for s in [format!("d{n:02}.wide."), format!("www.d{n:02}.wide."), format!("a.b.c.d{n:02}.wide."), format!("ns00.d{n:02}.wide."), format!("m{n:02}.wide."), format!("s{n:02}.wide.")] {
+            v.push(wname(&s));
+        }
+    }
+    v
+}
+
+pub const STRADDLE_ALIGNMENTS: usize = 40;
+pub const STRADDLE_PAIRS: usize = 450;
+
+/// `straddle.`: PTR and MX RRsets of 450 sibling pairs `aa.gNNNN.out.example.`
+/// / `bb.gNNNN.out.example.`: every pair introduces a fresh literal label, so
+/// in a response of ~18 KB some pair has its fresh label on either side of
+/// offset 0x4000 (the first offset a compression pointer cannot reach). The
+/// owner label length 1..=40 shifts the whole answer section one octet at a
+/// time over the 40-octet period of a pair.
+pub fn straddle_zone_recs() -> Vec<Rec> {
+    let apex = wname("straddle.");
+    let mut v = vec![
+        rec(&apex, t::SOA, 3600, soa_rdata("ns.straddle.", "admin.straddle.", 1, 1, 2, 3, 60)),
+        rec(&apex, t::NS, 3600, wname("ns.straddle.")),
+        rec(&wname("ns.straddle."), t::A, 60, vec![192, 0, 2, 1]),
+    ];
+    for k in 1..=STRADDLE_ALIGNMENTS {
+        let p = straddle_owner(b'p', k);
+        let m = straddle_owner(b'm', k);
+        for i in 0..STRADDLE_PAIRS {
+            for pre in ["aa", "bb"] {
+                let target = format!("{pre}.g{i:04}.out.example.");
+                v.push(rec(&p, t::PTR, 60, wname(&target)));
+                v.push(rec(&m, t::MX, 60, mx_rdata(i as u16, &target)));
+            }
+        }
+    }
+    v
+}
+
+pub fn straddle_owner(fill: u8, k: usize) -> Vec<u8> {
+    wire::child(&vec![fill; k], &wname("straddle."))
+}
+
+/// Queries for the generated large zones (`big.` is queried by C02 through
+/// its own name list): every name of `wide_names` x {A, NS, MX, SRV, ANY} x
+/// decorations, and every straddle owner x its type x {plain, TSIG,
+/// EDNS 65535 + TSIG}.
+pub fn large_universes() -> Vec<(&'static str, Vec<Req>)> {
+    let wide_decos = [Deco::Plain, Deco::Edns { size: 4096, dnssec_ok: false }, Deco::Tsig { key: 1 }, Deco::Tsig { key: 2 }, Deco::EdnsTsig { size: 4096, key: 1 }, Deco::EdnsTsig { size: 65535, key: 2 }];
+    let wide = query_universe(&wide_names(), &[t::A, t::NS, t::MX, t::SRV, t::ANY], &[c::IN], &wide_decos);
+    let sdecos = [Deco::Plain, Deco::Tsig { key: 1 }, Deco::EdnsTsig { size: 65535, key: 1 }];
+    let mut straddle = Vec::new();
+    for k in 1..=STRADDLE_ALIGNMENTS {
+        straddle.extend(query_universe(&[straddle_owner(b'p', k)], &[t::PTR], &[c::IN], &sdecos));
+        straddle.extend(query_universe(&[straddle_owner(b'm', k)], &[t::MX], &[c::IN], &sdecos));
+    }
+    vec![("wide", wide), ("straddle", straddle)]
+}
+
+pub fn large_catalogs() -> Vec<(String, CatRef)> {
+    vec![
+        ("wide".to_string(), catalog_from(vec![("wide.", wide_zone_recs())])),
+        ("straddle".to_string(), catalog_from(vec![("straddle.", straddle_zone_recs())])),
+    ]
+}
+
 pub fn catalog_from(zones: Vec<(&str, Vec<Rec>)>) -> CatRef {
     let zs = zones
         .into_iter()
